@@ -55,7 +55,9 @@ def strat(tier):
         'part_file': st.sampled_from([None, None, 'custom.tmp']),
         'api': st.sampled_from(['with', 'with', 'explicit']),
         # a part file left by an earlier, crashed attempt (longer / shorter than the new content); taken over with overwrite_part=True
-        'stale_part': st.sampled_from([None, None, None, 'longer', 'shorter']),
+        # ('link_of_dest': what a crash between link() and unlink() of an overwrite=False save leaves behind - the part file is a
+        #  second name of the destination's inode)
+        'stale_part': st.sampled_from([None, None, None, 'longer', 'shorter', 'link_of_dest']),
         # length of the destination's file name: NAME_MAX is 255, the default part file appends 5 characters ('.part')
         'name_len': st.sampled_from([None, None, None, None, None, None, 250, 251, 255]),
         # the body closes the file object itself before the with-block ends (a nested `with f:`, a wrapper that closes its stream)
@@ -106,6 +108,8 @@ def _stale(case, new):
     sp = case.get('stale_part')
     if not sp:
         return None
+    if sp == 'link_of_dest':
+        return 'LINK-OF-DEST'
     return b'STALE-' * (len(new) // 6 + 50) if sp == 'longer' else b'S'
 
 
@@ -126,7 +130,10 @@ def _prepare(sandbox, old, stale=None, part_name='dest.bin.part', dest_name='des
             os.symlink(target, os.path.join(sandbox, dest_name))
         if hardlink and not symlink:
             os.link(os.path.join(sandbox, dest_name), os.path.join(sandbox, 'second-link-to-dest'))
-    if stale is not None and len(part_name) <= 255:
+    if stale == 'LINK-OF-DEST':
+        if old is not None and not symlink and len(part_name) <= 255:
+            os.link(os.path.join(sandbox, dest_name), os.path.join(sandbox, part_name))
+    elif stale is not None and len(part_name) <= 255:
         with open(os.path.join(sandbox, part_name), 'wb') as f:
             f.write(stale)
             f.flush()
